@@ -99,13 +99,57 @@ def case_split(pieces, facts, max_conds=3):
             desc.append(("%s" if val else "!(%s)") % sym.show(c))
         if conds and affine.infeasible(f2):
             continue            # contradictory combination of conditions: not a case
-        mapping = {}
-        for p in pieces:
+        truth = dict(zip(conds, choice))
+
+        def select(t):
+            """every conditional term whose condition is one of the case conditions is replaced by the branch the case takes
+            (recursively: conditionals nest when a sign and a shift are both written with ?:)"""
+            if not isinstance(t, tuple) or not t:
+                return t
+            if not isinstance(t[0], str):
+                return tuple(select(x) for x in t)
+            if t[0] == "cond" and t[1] in truth:
+                return select(t[2] if truth[t[1]] else t[3])
+            if t[0] in ("int", "float", "str", "sym", "var", "glob", "unk"):
+                return t
+            if t[0] == "poly":
+                r = ZERO
+                for m, c in t[1]:
+                    prod = I(c)
+                    for x in m:
+                        prod = sym.mul(prod, select(x))
+                    r = sym.add(r, prod)
+                return r
+            if t[0] == "idx":
+                return sym.idx(select(t[1]), select(t[2]))
+            if t[0] == "fld":
+                return sym.fld(select(t[1]), t[2])
+            if t[0] == "addr":
+                return sym.addr(select(t[1]))
+            if t[0] == "op":
+                return sym.binop(t[1], select(t[2]), select(t[3]))
+            if t[0] == "call":
+                return ("call", t[1], tuple(select(x) for x in t[2]))
+            return tuple(select(x) if isinstance(x, tuple) and x and isinstance(x[0], str) else x for x in t)
+
+        def sel_piece(p):
+            q = dict(p)
+            q["val"] = select(p["val"])
+            q["lv"] = select(p["lv"])
+            q["loops"] = [dict(l, lo=select(l["lo"]), hi=select(l["hi"])) for l in p["loops"]]
+            q["guards"] = [select(g) for g in p["guards"]]
+            return q
+        ps2 = [sel_piece(p) for p in pieces] if conds else list(pieces)
+        # the end value of a counted loop over [0, X) is X when X >= 0 follows from the facts of the case
+        ends = {}
+        for p in ps2:
             for t in _piece_terms(p):
                 for st in sym.subterms(t):
-                    if st[0] == "cond":
-                        mapping[st] = st[2] if choice[conds.index(st[1])] else st[3]
-        ps2 = [_rewrite_piece(p, mapping) for p in pieces] if mapping else list(pieces)
+                    if st[0] == "call" and st[1] == "$loop_end" and st not in ends and st[2][0] == ZERO and st[2][2] == I(1) \
+                            and st[2][3] == I(0) and affine.prove_nonneg(st[2][1], f2):
+                        ends[st] = st[2][1]
+        if ends:
+            ps2 = [_rewrite_piece(p, ends) for p in ps2]
         if conds:
             # statements whose guards contradict the case are not executed in it
             ps2 = [p for p in ps2 if not (p["guards"] and affine.infeasible(f2 + affine.guard_constraints(p["guards"])))]
